@@ -32,6 +32,15 @@ CHECKS = {
              "of the C library's memcmp over keys the real encoder produced for boundary pairs, one-byte-different "
              "pairs, random pairs and tuples of 1..3 values.",
         ref="DESIGN.md 4/C05", technique="TLA+ order lemmas checked by TLC + TLC trace validation of memcmp over real keys"),
+    "C07": dict(
+        text="FloatCodec.tla states the contract on IEEE-754 bit patterns in exact integer arithmetic (specials and FULL "
+             "bit-exact; reduced precision |dec-x| <= |x|*2^-mb or infinity when x rounds above DBL_MAX; auto selection "
+             "bound <= requested). FloatModel.tla writes the documented algorithm over a toy binary format and TLC "
+             "checks the contract for every toy value and width (the carry-dropping shape is the negative control) and "
+             "prints the value classes; the real codec is run on every class alone and in mixed arrays in all "
+             "precision x exponent-mode pairs, on arrays with exponent spread > 255 and on requested errors around "
+             "each mode bound; FloatTrace.tla judges every element.",
+        ref="DESIGN.md 4/C07", technique="TLA+ contract + toy-format algorithm model checked exhaustively by TLC + TLC trace validation on binary64 bit patterns"),
     "C08": dict(
         text="BitmapModel.tla checks exhaustively (universe 0..7, threshold 3) that the three-container design with "
              "conversions and incremental cardinality refines a mathematical set under every history (the pre-fix "
